@@ -20,6 +20,8 @@ import (
 // and from Go's own rules for promoted fields (reflect.VisibleFields) — not from goja's buildFieldInfo.
 // ---------------------------------------------------------------------------------------------
 
+var typSimpleMap = reflect.TypeOf(map[string]interface{}(nil))
+
 const (
 	mapNil = iota
 	mapTag
@@ -161,9 +163,6 @@ func mapKeySupported(k reflect.Kind) bool {
 
 // goView renders v as script should see it. depth guards against cycles.
 func goView(v reflect.Value, mapper int, depth int) string {
-	if depth > 7 {
-		return "deep"
-	}
 	if !v.IsValid() {
 		return "null"
 	}
@@ -225,6 +224,11 @@ func goView(v reflect.Value, mapper int, depth int) string {
 		return s
 	case reflect.Func:
 		return "func"
+	}
+	if depth > 7 {
+		return "deep" // same cut as the script-side renderer (objects only)
+	}
+	switch v.Kind() {
 	case reflect.Slice, reflect.Array:
 		var b strings.Builder
 		b.WriteByte('[')
@@ -239,6 +243,9 @@ func goView(v reflect.Value, mapper int, depth int) string {
 	case reflect.Map:
 		if t.NumMethod() > 0 || !mapKeySupported(t.Key().Kind()) {
 			return "{}" // generic host object: methods only
+		}
+		if v.IsNil() && t == typSimpleMap && !viaPtr {
+			return "null" // a nil map[string]interface{} is converted to null
 		}
 		type kv struct{ k, v string }
 		var items []kv
@@ -312,12 +319,12 @@ function R(v, d) {
   if (t === "undefined") return "undef";
   if (t === "function") return "func";
   if (t !== "object") return P(v);
-  if (d > 7) return "deep";
   var k = K(v);
   if (k === "num") return "W(" + P(+v) + ")";
   if (k === "str") return "W(" + P(STR(v)) + ")";
   if (k === "bool") return "W(" + P(v.valueOf()) + ")";
   if (k === "goja") return "gojaval";
+  if (d > 7) return "deep";
   if (Array.isArray(v)) {
     var s = "[", n = v.length;
     for (var i = 0; i < n; i++) { s += (i ? "," : "") + R(v[i], d + 1); }
@@ -326,7 +333,8 @@ function R(v, d) {
   var keys = Object.keys(v).sort(CMP), s = "{", first = true;
   for (var i = 0; i < keys.length; i++) {
     var x = v[keys[i]];
-    if (typeof x === "function") continue;
+    // (functions: methods and func fields; undefined: a field promoted through a nil embedded pointer has a name but no value)
+    if (typeof x === "function" || x === undefined) continue;
     s += (first ? "" : ",") + Q(keys[i]) + ":" + R(x, d + 1);
     first = false;
   }
